@@ -1,6 +1,7 @@
 package props
 
 import (
+	"crypto/sha256"
 	stdtls "crypto/tls"
 	"crypto/x509"
 	"encoding/pem"
@@ -64,7 +65,7 @@ var c29Lists = [][]int{{0, 1, 2}, {1, 2, 3, 4}, {2, 4, 5}}
 
 type rollerAttempt struct {
 	caller string
-	id     string // recognised fingerprint ("?" if none)
+	id     string // recognised fingerprint; "?<hash>" for one that is not in the menu (unseeded randomized)
 	sni    string
 	accept bool
 }
@@ -78,6 +79,8 @@ type rollerEnv struct {
 	attempts []rollerAttempt
 	closers  []func()
 	useSched bool
+	// acceptUnknown decides for fingerprints outside the menu (nil: refuse)
+	acceptUnknown func(id string) bool
 }
 
 var errInjectedDial = errors.New("verif: injected dial failure")
@@ -125,9 +128,15 @@ func callerName() string {
 func (e *rollerEnv) serverConfig(caller string) *stdtls.Config {
 	f := peer.Fix()
 	cfg := &stdtls.Config{
-		Certificates: []stdtls.Certificate{{Certificate: f.LongLived.Certificate, PrivateKey: f.LongLived.PrivateKey}},
-		MinVersion:   stdtls.VersionTLS12,
+		Certificates: []stdtls.Certificate{{Certificate: f.LongLived.Certificate, PrivateKey: f.LongLived.PrivateKey}, {Certificate: f.LongLivedRSA.Certificate, PrivateKey: f.LongLivedRSA.PrivateKey}},
+		MinVersion:   stdtls.VersionTLS10,
 		NextProtos:   []string{"h2", "http/1.1"},
+	}
+	for _, cs := range stdtls.CipherSuites() {
+		cfg.CipherSuites = append(cfg.CipherSuites, cs.ID)
+	}
+	for _, cs := range stdtls.InsecureCipherSuites() {
+		cfg.CipherSuites = append(cfg.CipherSuites, cs.ID)
 	}
 	cfg.GetConfigForClient = func(chi *stdtls.ClientHelloInfo) (*stdtls.Config, error) {
 		sig := helloSig(chi)
@@ -135,12 +144,16 @@ func (e *rollerEnv) serverConfig(caller string) *stdtls.Config {
 		defer e.mu.Unlock()
 		name, ok := e.sigs[sig]
 		if !ok {
-			name = "?"
+			h := sha256.Sum256([]byte(sig))
+			name = fmt.Sprintf("?%x", h[:4])
 			if e.sigs == nil { // learning pass
 				name = sig
 			}
 		}
 		acc := e.accept == nil || e.accept[name]
+		if !ok && e.sigs != nil {
+			acc = e.acceptUnknown != nil && e.acceptUnknown(name)
+		}
 		e.attempts = append(e.attempts, rollerAttempt{caller, name, chi.ServerName, acc})
 		if !acc {
 			return nil, errors.New("fingerprint not accepted")
@@ -313,8 +326,9 @@ func sortedOrders(m map[string]tls.PRNGSeed) []string {
 }
 
 // checkCall judges one Dial call against the reference Roller.
-//   cfg: configured id names; workingOpts: the values WorkingHelloID may have had when the call
-//   read it ("" = nil); accept: accepted names; failAt: injected dial failure (0 none).
+//
+//	cfg: configured id names; workingOpts: the values WorkingHelloID may have had when the call
+//	read it ("" = nil); accept: accepted names; failAt: injected dial failure (0 none).
 func c29CheckCall(r *explore.Result, what string, cfg []string, workingOpts []string, accept map[string]bool, failAt int, att []rollerAttempt, conn *tls.UConn, err error, serverName string) (succeeded string) {
 	inCfg := map[string]bool{}
 	for _, c := range cfg {
@@ -584,7 +598,7 @@ func c29Concurrent(bound int, free bool) *explore.Scenario {
 		Name:    "concurrent-dials",
 		Workers: 1, // the dial hook is process-wide; parallelism comes from process sharding
 		Dedup:   !free,
-		Budget: map[string]int{"preempt": bound, "switch": bound, "select": bound},
+		Budget:  map[string]int{"preempt": bound, "switch": bound, "select": bound},
 		Run: func(x *explore.X) (r explore.Result) {
 			c29Learn()
 			if c29Gate != "" {
@@ -705,6 +719,100 @@ func c29Concurrent(bound int, free bool) *explore.Scenario {
 	}
 }
 
+// c29Unseeded — an unseeded randomized id draws a fresh fingerprint for every connection; once
+// one of them worked, "the most recently working ClientHelloID" is THAT fingerprint (the id with
+// the seed it was generated from): the next Dial must lead with it, byte-for-byte the same shape.
+func c29Unseeded() *explore.Scenario {
+	menu := c29Menu()
+	kinds := []tls.ClientHelloID{tls.HelloRandomized, tls.HelloRandomizedALPN, tls.HelloRandomizedNoALPN}
+	return &explore.Scenario{
+		Name:    "unseeded-randomized-working-fingerprint",
+		Workers: 1,
+		Run: func(x *explore.X) (r explore.Result) {
+			c29Learn()
+			if c29Gate != "" {
+				r.Violate("INFRA|c29-learn", "%s", c29Gate)
+				return
+			}
+			kind := kinds[x.Choose("kind", len(kinds))]
+			second := x.Choose("second", 3) // 0 accept-all server, 1 only the pinned fingerprint that worked, 2 only Chrome-120
+			seedN := x.Choose("shuffle", 6)
+			what := fmt.Sprintf("ids=[Chrome-120 Firefox-120 %s(unseeded)] second=%d shuffle-seed=%d", kind.Client, second, seedN)
+			e := newRollerEnv(c29Sigs)
+			vnet.SetDial(e.dial)
+			defer vnet.SetDial(nil)
+			defer e.closeAll()
+			roller := c29Roller(menu, []int{1, 2})
+			roller.HelloIDs = append(roller.HelloIDs, kind)
+			tls.VerifRollerSeed(roller, tls.PRNGSeed{byte(seedN), 0x29, 0x55})
+			// first Dial: only fingerprints outside the menu are accepted
+			e.accept = map[string]bool{}
+			e.acceptUnknown = func(string) bool { return true }
+			c1, err1 := roller.Dial("tcp", "x", "a.example")
+			var worked string
+			for _, a := range e.attempts {
+				if a.accept {
+					worked = a.id
+				}
+			}
+			if c1 == nil || err1 != nil || worked == "" {
+				// a randomized spec the server cannot complete is not this property's subject
+				r.Count("first_dial_failed", 1)
+				r.Obs = "first-dial-failed"
+				return
+			}
+			r.Count("first_dial_ok", 1)
+			roller.HelloIDMu.Lock()
+			w := roller.WorkingHelloID
+			roller.HelloIDMu.Unlock()
+			if w == nil || w.Client != kind.Client || w.Seed == nil {
+				r.Violate("C29|unseeded|working-id-without-seed", "%s: %s worked but WorkingHelloID = %+v (the fingerprint that worked cannot be reproduced without its seed)", what, worked, w)
+				return
+			}
+			e.mu.Lock()
+			e.attempts = nil
+			e.dials = map[string]int{}
+			switch second {
+			case 0:
+				e.accept, e.acceptUnknown = nil, func(string) bool { return true }
+			case 1:
+				e.accept, e.acceptUnknown = map[string]bool{}, func(id string) bool { return id == worked }
+			case 2:
+				e.accept, e.acceptUnknown = map[string]bool{menu[1].name: true}, nil
+			}
+			e.mu.Unlock()
+			c2, err2 := roller.Dial("tcp", "x", "example.com")
+			att := append([]rollerAttempt(nil), e.attempts...)
+			var order []string
+			seen := map[string]bool{}
+			for _, a := range att {
+				order = append(order, a.id)
+				if seen[a.id] {
+					r.Violate("C29|unseeded|fingerprint-tried-twice", "%s: %v", what, order)
+				}
+				seen[a.id] = true
+			}
+			if len(att) == 0 || att[0].id != worked {
+				r.Violate("C29|unseeded|next-dial-does-not-lead-with-working-fingerprint", "%s: the fingerprint that worked was %s, the next Dial tried %v", what, worked, order)
+			}
+			switch second {
+			case 0, 1:
+				if c2 == nil || err2 != nil || len(att) != 1 {
+					r.Violate("C29|unseeded|pinned-fingerprint-not-reused", "%s: a server accepting the fingerprint that worked (%s): attempts %v conn=%v err=%v", what, worked, order, c2 != nil, err2)
+				}
+			case 2:
+				if c2 == nil || err2 != nil || att[len(att)-1].id != menu[1].name {
+					r.Violate("C29|unseeded|fallback-fails", "%s: only Chrome-120 accepted: attempts %v conn=%v err=%v", what, order, c2 != nil, err2)
+				}
+			}
+			r.Nontrivial = true
+			r.Obs = fmt.Sprintf("second=%d|attempts=%d|ok=%v", second, len(att), err2 == nil)
+			r.Class = kind.Client + "|" + r.Obs
+			return
+		},
+	}
+}
+
 func c29Scenarios(thorough bool) []*explore.Scenario {
 	b := 1
 	if thorough {
@@ -713,15 +821,15 @@ func c29Scenarios(thorough bool) []*explore.Scenario {
 	if os.Getenv("C29_BOUND") != "" {
 		fmt.Sscan(os.Getenv("C29_BOUND"), &b)
 	}
-	return []*explore.Scenario{c29Sequential(thorough), c29Concurrent(b, false)}
+	return []*explore.Scenario{c29Sequential(thorough), c29Unseeded(), c29Concurrent(b, false)}
 }
 
 func init() {
 	register(&Prop{ID: "C29", Level: "model_checking", Variant: "B", Scenarios: c29Scenarios, Sharded: true,
-		Init: func(verifDir string) { c29Trust(verifDir) },
+		Init:          func(verifDir string) { c29Trust(verifDir) },
 		RaceScenarios: func(thorough bool) []*explore.Scenario { return []*explore.Scenario{c29Concurrent(0, true)} },
 		Run: func(c *explore.Check, thorough bool) {
-			c.Rule = "real Roller; net.DialTimeout redirected to in-memory connections to a standard-library TLS server that recognises each fingerprint and accepts a chosen subset. (1) explicit-state: the Roller's only state is WorkingHelloID, so every state {none, each configured id, an id no longer configured} — reached through the public API by a prefix Dial — x id lists {3 ids two of which share the client name, 4 ids incl. a seeded randomized one, 3 ids two of which are randomized ids differing only in their seed} x every acceptance subset x every attempt order the shuffle can produce (quick: 6 of 24 for the 4-id list) x dial failure at every position is executed, followed by one more Dial from the reached state; (2) two concurrent Dials on one Roller under the controlled scheduler, all schedules with <= 1 (2) preemptions/free switches, x 4 acceptance sets x {no working id, one}. Oracle (reference Roller): first attempt is the working id if any, no id twice, only configured ids (plus the working one), stops at the first accepted attempt and returns that connection (complete, same id, SNI = server name on every attempt), records it; a dial error is returned at once; failure leaves WorkingHelloID alone and tries every id; concurrent: no deadlock/panic, each call explainable by the initial or the other call's working id, final WorkingHelloID is one of the successes. distinct = outcome class"
+			c.Rule = "real Roller; net.DialTimeout redirected to in-memory connections to a standard-library TLS server that recognises each fingerprint and accepts a chosen subset. (1) explicit-state: the Roller's only state is WorkingHelloID, so every state {none, each configured id, an id no longer configured} — reached through the public API by a prefix Dial — x id lists {3 ids two of which share the client name, 4 ids incl. a seeded randomized one, 3 ids two of which are randomized ids differing only in their seed} x every acceptance subset x every attempt order the shuffle can produce (quick: 6 of 24 for the 4-id list) x dial failure at every position is executed, followed by one more Dial from the reached state; unseeded randomized ids (3 kinds x 6 shuffle seeds x 3 second servers): after one of their fresh fingerprints worked, WorkingHelloID carries its seed and the next Dial leads with exactly that fingerprint; (2) two concurrent Dials on one Roller under the controlled scheduler, all schedules with <= 1 (2) preemptions/free switches, x 4 acceptance sets x {no working id, one}. Oracle (reference Roller): first attempt is the working id if any, no id twice, only configured ids (plus the working one), stops at the first accepted attempt and returns that connection (complete, same id, SNI = server name on every attempt), records it; a dial error is returned at once; failure leaves WorkingHelloID alone and tries every id; concurrent: no deadlock/panic, each call explainable by the initial or the other call's working id, final WorkingHelloID is one of the successes. distinct = outcome class"
 			c.Assumptions = []string{"shuffle decisions are driven by replacing the Roller's private prng with seeded ones (in-package helper); one seed per reachable attempt order", "fingerprints are recognised from the server's ClientHelloInfo (suites, extension set, groups, versions, ALPN; GREASE ignored); the menu's signatures are checked to be pairwise distinct", "trust via SSL_CERT_FILE and the real clock (certificate valid 2021-2036)"}
 			runAll(c, c29Scenarios(thorough), 0)
 			attachRacePass(c)
